@@ -9,6 +9,7 @@ import (
 	"hash/fnv"
 	"os"
 	"path/filepath"
+	"runtime"
 	"runtime/debug"
 	"sort"
 	"sync"
@@ -24,6 +25,10 @@ type Stats struct {
 	Excluded map[string]int64
 	Samples  []interface{}
 	failed   bool
+	// MemSkipped: generated cases that were not evaluated because this
+	// process had used up its memory budget (runtime-created struct types are
+	// never freed)
+	MemSkipped int64
 }
 
 var (
@@ -90,6 +95,45 @@ func (s *Stats) Exclude(reason string) {
 	s.mu.Unlock()
 }
 
+var (
+	memCheckN   int64
+	memExceeded bool
+)
+
+// MemBudgetExhausted reports (checking every 32 calls) whether this process
+// holds more memory than VERIF_MEMLIMIT_MB (default 1800). Once true it stays
+// true: what is held are runtime-created types, which are never released.
+func MemBudgetExhausted() bool {
+	if memExceeded {
+		return true
+	}
+	memCheckN++
+	if memCheckN%32 != 0 {
+		return false
+	}
+	limit := uint64(1800)
+	if v := os.Getenv("VERIF_MEMLIMIT_MB"); v != "" {
+		var n uint64
+		if _, err := fmt.Sscan(v, &n); err == nil && n > 0 {
+			limit = n
+		}
+	}
+	var ms runtime.MemStats
+	runtime.ReadMemStats(&ms)
+	// (HeapAlloc: live objects plus garbage not yet collected; the runtime keeps
+	// it below about twice the live size)
+	if ms.HeapAlloc > limit<<20 {
+		memExceeded = true
+	}
+	return memExceeded
+}
+
+func (s *Stats) MemSkip() {
+	s.mu.Lock()
+	s.MemSkipped++
+	s.mu.Unlock()
+}
+
 func (s *Stats) markFailed() {
 	s.mu.Lock()
 	s.failed = true
@@ -104,6 +148,7 @@ type statsDump struct {
 	Labels   map[string]int64 `json:"labels"`
 	Excluded map[string]int64 `json:"excluded"`
 	Samples  []interface{}    `json:"samples"`
+	MemSkip  int64            `json:"memskipped"`
 }
 
 func DumpStats(path string) error {
@@ -111,7 +156,7 @@ func DumpStats(path string) error {
 	defer statsMu.Unlock()
 	out := []statsDump{}
 	for _, s := range allStats {
-		d := statsDump{Prop: s.Prop, Rule: s.Rule, Evals: s.Evals, Labels: s.Labels, Excluded: s.Excluded, Samples: s.Samples}
+		d := statsDump{Prop: s.Prop, Rule: s.Rule, Evals: s.Evals, Labels: s.Labels, Excluded: s.Excluded, Samples: s.Samples, MemSkip: s.MemSkipped}
 		for h := range s.nt {
 			d.NT = append(d.NT, fmt.Sprintf("%016x", h))
 		}
